@@ -57,6 +57,7 @@ def run(ctx):
     c_end_in_buffering(ctx, end, proc)
     c_prefix_remainder(ctx, push)
     c_reentry_clean(ctx, push)
+    b_pipe_in_order(ctx, proc)
     a_buffer_remainder_raw(ctx, cls)
 
 
@@ -116,7 +117,13 @@ def b_completion_once(ctx, proc):
     ctx.floor("C18.b.completion-once", STREAM, "stores to completion in _process", len(ext), 1)
     reentry = [n for n in cfg.nodes if n.ast is not None and any(
         isinstance(c, ast.Call) and src(c.func) in ("self.push_chunk", "self._process") for c in walk_no_nested(n.ast))]
-    bad = [r for r in reentry if any(r in cfg.reachable([e]) for e in ext)]
+    # a re-entry is harmless when `completion` was put back to its value from before the extension on every path to it (the re-entered processing appends the piece once)
+    prevs = {a.targets[0].id for a in ast.walk(proc) if isinstance(a, ast.Assign) and isinstance(a.targets[0], ast.Name) and src(a.value) == "self.completion"}
+    prev_lines = {a.targets[0].id: a.lineno for a in ast.walk(proc) if isinstance(a, ast.Assign) and isinstance(a.targets[0], ast.Name) and src(a.value) == "self.completion"}
+    first_grow = min([n.line for n in ext if not (isinstance(n.ast, ast.Assign) and isinstance(n.ast.value, ast.Name))] or [0])
+    resets = [n for n in ext if isinstance(n.ast, ast.Assign) and isinstance(n.ast.value, ast.Name) and n.ast.value.id in prevs and prev_lines[n.ast.value.id] < first_grow]
+    grow = [e for e in ext if e not in resets]
+    bad = [r for r in reentry if any(r in cfg.reachable([e]) and not cfg.must_pass(e, r, resets) for e in grow)]
     ctx.check("C18.b.completion-once", STREAM, "StreamingHandler._process", "no re-entry after completion was extended", not bad,
               "within one invocation the text is appended to `completion` once and delivered directly" if not bad else
               "`%s` re-enters the chunk processing after `completion` already contains that text: the piece in front of a stop sequence is appended a second time - the streamed "
@@ -290,3 +297,18 @@ def a_buffer_remainder_raw(ctx, cls):
                   "the text left in the buffer is built from the unfiltered lines" if ok else
                   "the text left in the buffer is rebuilt from filtered lines (%s): blank lines, '#' lines and the newline already buffered disappear from the stream, the same text "
                   "arriving after the hand-over is streamed intact" % (", ".join(used) or "comprehension with a condition"), line=st.lineno)
+
+
+def b_pipe_in_order(ctx, proc):
+    """Chunks handed to the piped handler must arrive in the order they were processed and before the end of the stream is signalled: a push that is only SCHEDULED
+    (`asyncio.create_task(self.pipe_to.push_chunk(chunk))`) runs after the caller went on - when the whole answer was already buffered, the consumer sees the end of the
+    stream first and the text is lost; with later tokens it arrives.  The push is awaited."""
+    calls = [c for c in walk_no_nested(proc) if isinstance(c, ast.Call) and isinstance(c.func, ast.Attribute) and c.func.attr == "push_chunk" and "pipe_to" in src(c.func.value)]
+    ctx.floor("C18.b.pipe-in-order", STREAM, "pushes into the piped handler in _process", len(calls), 1)
+    for c in calls:
+        par = getattr(c, "_parent", None)
+        ok = isinstance(par, ast.Await)
+        ctx.check("C18.b.pipe-in-order", STREAM, "StreamingHandler._process", first_line(c, 60), ok,
+                  "the push into the piped handler is awaited" if ok else
+                  "`%s` is %s, not awaited: the piped chunk is delivered after the caller continued - text that was already buffered when the pipe was installed reaches the main "
+                  "handler after its end marker and is lost" % (first_line(c, 50), "scheduled as a task" if isinstance(par, ast.Call) else "not awaited"), line=c.lineno)
